@@ -262,7 +262,10 @@ class Batch:
 
 
 def fmt_pt(kind, x, y):
-    if kind == 'tuple':
+    if kind in ('int-tuple', 'int-array') and float(x) == int(x) and float(y) == int(y):
+        # an all-integer request (whole unit pieces written as (1, 0), (1, 1)): Python ints / an integer array
+        return (int(x), int(y)) if kind == 'int-tuple' else np.array([[int(x)], [int(y)]])
+    if kind in ('tuple', 'int-tuple'):
         return (x, y)
     if kind == 'list':
         return [x, y]
@@ -701,6 +704,19 @@ def search(res, tier, boost=False):
                     break
             if stop:
                 break
+    # 2a'. whole unit pieces requested with integer-typed coordinates (Python ints, an integer array), both orientations
+    for domain in ['unit', 'lshape']:
+        for pi_, piece in enumerate(pieces(domain)):
+            p, q = segment(piece, 0, 0, DOMAINS[domain]['scale'])
+            if not all(float(v) == int(v) for v in tuple(p) + tuple(q)):
+                continue
+            for o in (0, 1):
+                a, b = (p, q) if o == 0 else (q, p)
+                for kind in ('int-tuple', 'int-array'):
+                    pm = PyQt(domain)
+                    ctx = dict(domain=domain, piece=pi_, l=0, k=0, a=a, b=b, kind=kind, pre=[], integer_typed=True)
+                    res.count(('search-bdr-int', domain, pi_, o, kind), True)
+                    check_targeting(res, pm, domain, a, b, kind, ctx, fuse=60)
     # 2b. DEEP segments (levels 9 .. level_cap): the descent's end-point comparison is a tolerance test in the code, so
     # short segments far from the origin (large coordinate, tiny length) are where it can stop early or overshoot;
     # first / last / second-to-last / middle / random positions of every piece, both orientations
